@@ -44,6 +44,28 @@ func (w *World) isNodeEvaluator(fn *ssa.Function) bool {
 	return declaredIn(fn.Signature.Params().At(0).Type(), astPath) || isASTRef(fn.Signature.Params().At(0).Type())
 }
 
+// isEvalFunc: a method of the evaluator, or an unexported plain function of
+// the evaluator's package (the same helper with its unused receiver dropped).
+func (w *World) isEvalFunc(fn *ssa.Function) bool {
+	if w.isCompilerMethod(fn) {
+		return true
+	}
+	if fn == nil || fn.Signature.Recv() != nil || fn.Parent() != nil {
+		return false
+	}
+	ct := w.compilerType()
+	obj := fnObject(fn)
+	return ct != nil && obj != nil && !obj.Exported() && obj.Pkg() == ct.Obj().Pkg()
+}
+
+// opBase: index of the first operand among fn.Params (behind the receiver, if any).
+func opBase(fn *ssa.Function) int {
+	if fn.Signature.Recv() != nil {
+		return 1
+	}
+	return 0
+}
+
 func (w *World) isCompilerMethod(fn *ssa.Function) bool {
 	if fn == nil || fn.Signature.Recv() == nil {
 		return false
@@ -87,7 +109,7 @@ func (w *World) infixModel() *infixModel {
 						continue
 					}
 					cal := c.Call.StaticCallee()
-					if cal == nil || seen[cal] || !w.isCompilerMethod(cal) || len(cal.Blocks) == 0 {
+					if cal == nil || seen[cal] || !w.isEvalFunc(cal) || len(cal.Blocks) == 0 {
 						continue
 					}
 					seen[cal] = true
@@ -132,7 +154,7 @@ func callsOpFuncs(w *World, fn *ssa.Function) bool {
 	for _, b := range fn.Blocks {
 		for _, ins := range b.Instrs {
 			if c, ok := ins.(*ssa.Call); ok {
-				if cal := c.Call.StaticCallee(); cal != nil && cal != fn && w.isCompilerMethod(cal) && isOpSig(cal.Signature) {
+				if cal := c.Call.StaticCallee(); cal != nil && cal != fn && w.isEvalFunc(cal) && isOpSig(cal.Signature) {
 					return true
 				}
 			}
@@ -147,6 +169,9 @@ func (m *infixModel) inlineHelpers(caller, callee *ssa.Function) bool {
 	pkg, obj := pkgOf(callee), fnObject(callee)
 	if o := callee.Origin(); o != nil {
 		pkg, obj = o.Pkg, o.Object() // an instance of a generic helper
+	}
+	if m.tables[callee] != nil || callee == m.truthy {
+		return false
 	}
 	if callee.Signature.Recv() == nil && pkg != nil && pkg == m.fn.Pkg && obj != nil && !obj.Exported() && len(callee.Blocks) > 0 {
 		return true // plain unexported helper of the evaluator's package (a predicate over the operator, ...)
@@ -199,12 +224,19 @@ func (m *infixModel) atomOf(p *pwPath, t *opTab, v ssa.Value, depth int) (side s
 	}
 	v = p.resolve(stripIface(p.resolve(v)))
 	// parameters: receiver, l, r, op
-	if len(t.fn.Params) >= 4 {
-		if v == ssa.Value(t.fn.Params[1]) {
-			return "l", ""
+	if b := opBase(t.fn); len(t.fn.Params) >= b+3 {
+		// an operand the caller hands over as a bool is its own truth value
+		how := func(q *ssa.Parameter) string {
+			if isBasicKind(q.Type(), types.Bool) {
+				return "truthy"
+			}
+			return ""
 		}
-		if v == ssa.Value(t.fn.Params[2]) {
-			return "r", ""
+		if v == ssa.Value(t.fn.Params[b]) {
+			return "l", how(t.fn.Params[b])
+		}
+		if v == ssa.Value(t.fn.Params[b+1]) {
+			return "r", how(t.fn.Params[b+1])
 		}
 	}
 	switch x := v.(type) {
@@ -221,8 +253,8 @@ func (m *infixModel) atomOf(p *pwPath, t *opTab, v ssa.Value, depth int) (side s
 		}
 	case *ssa.Call:
 		cal := x.Call.StaticCallee()
-		if cal == m.truthy && len(x.Call.Args) == 2 {
-			s, _ := m.atomOf(p, t, x.Call.Args[1], depth+1)
+		if cal == m.truthy && len(x.Call.Args) == opBase(m.truthy)+1 {
+			s, _ := m.atomOf(p, t, x.Call.Args[len(x.Call.Args)-1], depth+1)
 			return s, "truthy"
 		}
 		if cal != nil && cal.Pkg != nil && cal.Pkg.Pkg.Path() == "fmt" && cal.Name() == "Sprint" && len(x.Call.Args) == 1 {
@@ -267,7 +299,7 @@ func (m *infixModel) singleVariadic(p *pwPath, t *opTab, v ssa.Value, depth int)
 
 func (m *infixModel) seedOp(t *opTab, label string) func(*pwPath, ssa.Value) (constant.Value, bool) {
 	return func(_ *pwPath, v ssa.Value) (constant.Value, bool) {
-		if len(t.fn.Params) >= 4 && v == ssa.Value(t.fn.Params[3]) {
+		if b := opBase(t.fn); len(t.fn.Params) >= b+3 && v == ssa.Value(t.fn.Params[b+2]) {
 			return constant.MakeString(label), true
 		}
 		return nil, false
@@ -684,18 +716,19 @@ func c06DispatchSSA(r *Run, m *infixModel) {
 		for _, p := range paths {
 			for ei, ev := range p.events {
 				call, ok := ev.(*ssa.Call)
-				if !ok || m.tables[call.Call.StaticCallee()] == nil || len(call.Call.Args) != 4 {
+				if !ok || m.tables[call.Call.StaticCallee()] == nil || len(call.Call.Args) != opBase(call.Call.StaticCallee())+3 {
 					continue
 				}
+				ab := opBase(call.Call.StaticCallee())
 				v := sites[origCall(call)]
 				if v == nil {
 					v = &verdict{pos: call.Pos()}
 					sites[origCall(call)] = v
 				}
 				v.n++
-				okL := m.isOperandValue(p, call.Call.Args[1], "Left", 0)
-				okR := m.isOperandValue(p, call.Call.Args[2], "Right", 0)
-				opC, okOp := p.constOf(call.Call.Args[3])
+				okL := m.isOperandValue(p, call.Call.Args[ab], "Left", 0)
+				okR := m.isOperandValue(p, call.Call.Args[ab+1], "Right", 0)
+				opC, okOp := p.constOf(call.Call.Args[ab+2])
 				if !okL || !okR || !okOp || constant.StringVal(opC) != label {
 					v.bad = "operator function must receive (left value, right value, the node's operator) in this order"
 					continue
@@ -785,7 +818,7 @@ func c06ShortCircuitSSA(r *Run) {
 	name := ssaName(m.fn)
 	isTruthyOf := func(p *pwPath, v ssa.Value, field string) bool {
 		c, ok := p.resolve(stripIface(p.resolve(v))).(*ssa.Call)
-		return ok && c.Call.StaticCallee() == m.truthy && len(c.Call.Args) == 2 && m.isOperandValue(p, c.Call.Args[1], field, 0)
+		return ok && c.Call.StaticCallee() == m.truthy && len(c.Call.Args) == opBase(m.truthy)+1 && m.isOperandValue(p, c.Call.Args[len(c.Call.Args)-1], field, 0)
 	}
 	for _, op := range []string{"&&", "||"} {
 		paths, ok := walkPaths(m.fn, m.seedNodeOp(op), m.inlineHelpers)
